@@ -1,6 +1,6 @@
 #!/usr/bin/env python3
 """Calibrate harness/run_caps.json: run each check time-bounded (explicit budget = the configured one) on this
-machine, take 70 % of the runs every scenario/flavour completed as the fixed run count of the default invocation.
+machine, take the number of runs every scenario/flavour completed as the fixed run count of the default invocation.
 usage: calibrate.py quick|thorough [ids...]      (prints any VIOLATION / TOOL line; such a check gets no cap)"""
 import json, os, subprocess, sys
 ROOT = os.path.dirname(os.path.abspath(__file__))
@@ -28,7 +28,7 @@ def main():
             continue
         ev = json.load(open(os.path.join(ROOT, "evidence", pid + ".json")))
         for k, v in ev["coverage"]["per_scenario"].items():
-            caps[tier][k] = int(v["runs"] * 0.7)
+            caps[tier][k] = int(v["runs"] * 1.0)
         json.dump(caps, open(path, "w"), indent=1, sort_keys=True)
     return rc_all
 
